@@ -173,7 +173,11 @@ impl Object for Function {
                     ref p => bail!("found a function stream with type {:?}", p)
                 }
             },
-            Primitive::Reference(r) => Self::from_primitive(resolve.resolve(r)?, resolve),
+            Primitive::Reference(r) => match resolve.resolve(r)? {
+                // an object that is itself only a reference: following it could loop forever
+                Primitive::Reference(_) => bail!("double indirection"),
+                p => Self::from_primitive(p, resolve)
+            },
             _ => bail!("double indirection")
         }
     }
